@@ -484,9 +484,17 @@ fn string_number(vm: &mut Vm) -> Result<VCell, Error> {
     let argc = pop_argc(vm, 1, Some(2), "string->number")?;
 
     let radix = match argc {
-        2 => pop_usize(vm)? as u32,
-        _ => 10_u32,
+        2 => pop_usize(vm)?,
+        _ => 10,
     };
+    // the digit parsers only exist for radix 2 to 36 (and panic outside that range)
+    if !(2..=36).contains(&radix) {
+        return Err(InvalidSyntax(format!(
+            "string->number: {} is not a valid radix",
+            radix
+        )));
+    }
+    let radix = radix as u32;
     let s = pop_string(vm, "string->number")?;
     let s = s.borrow();
     let s = s.as_str();
